@@ -147,6 +147,12 @@ func (x *Exec) stmt(s ast.Stmt, st *State, fr *frame, k func(*State)) {
 		case *ast.RangeStmt:
 			x.rangeStmt(l, n.Label.Name, st, fr, k)
 		default:
+			// a label on the first statement of the body: `goto L` restarts the function (see BranchStmt)
+			if body := x.fi.Decl.Body; len(body.List) > 0 && body.List[0] == ast.Stmt(n) {
+				x.restartLabel = n.Label.Name
+				x.stmt(n.Stmt, st, fr, k)
+				return
+			}
 			x.unsupported(n, "label on non-loop")
 		}
 	case *ast.ReturnStmt:
@@ -165,6 +171,11 @@ func (x *Exec) stmt(s ast.Stmt, st *State, fr *frame, k func(*State)) {
 		case token.CONTINUE:
 			if f, ok := fr.continueK[lbl]; ok {
 				f(st)
+				return
+			}
+		case token.GOTO:
+			if lbl != "" && lbl == x.restartLabel && x.con != nil && x.con.RestartDec != nil {
+				x.restart(n, st)
 				return
 			}
 		}
@@ -775,7 +786,7 @@ func (x *Exec) havoc(st *State, ms *modSet) {
 		}
 		if ms.allocs {
 			na := x.ctx.fresh("alloc", "Int")
-			st.assume(app("<=", st.alloc.S, na))
+			st.pc = append(st.pc, app("<=", st.alloc.S, na)) // unguarded: the counter only grows, whether or not a guarded call ran
 			st.alloc = Term{S: na, Sort: "Int"}
 		}
 	}
@@ -1327,6 +1338,49 @@ func (x *Exec) doReturn(n *ast.ReturnStmt, st *State) {
 	x.finish(st, vals, n)
 }
 
+// restart: `goto L` where L labels the first statement of the body, i.e. the function starts over with the current
+// values of its parameters. Modelled as a tail call to the function's own contract: the preconditions must hold, the
+// restart_decreases measure must be non-negative and smaller than at entry (termination), and what the contract
+// ensures about that call is what the function returns.
+func (x *Exec) restart(n ast.Node, st *State) {
+	env := x.specEnvAt(st, x.fi.Decl.Body.Lbrace+1)
+	oenv := x.specEnvAt(x.old, x.fi.Decl.Body.Lbrace+1)
+	m1, ok1 := x.clauseTerm(x.con.RestartDec, env)
+	m0, ok0 := x.clauseTerm(x.con.RestartDec, oenv)
+	if ok1 && ok0 {
+		x.oblige(st, "restart-decreases", x.con.RestartDec.Label, n, and(app("<=", "0", m1), app("<", m1, m0)))
+	}
+	sig := x.fi.Obj.Type().(*types.Signature)
+	var recv *Term
+	if rv := sig.Recv(); rv != nil {
+		if t, ok := st.vars[rv]; ok {
+			recv = &t
+		} else if t, ok := x.ghostVals["this"]; ok {
+			recv = &t
+		}
+	}
+	var args []Term
+	for i := 0; i < sig.Params().Len(); i++ {
+		args = append(args, st.vars[sig.Params().At(i)])
+	}
+	rs := x.callContract(n, x.con, x.fi.Obj, recv, args, st)
+	x.finish(st, rs, n)
+}
+
+func (x *Exec) clauseTerm(c *Clause, env *SpecEnv) (t string, ok bool) {
+	defer func() {
+		if r := recover(); r != nil {
+			if se, isStale := r.(staleErr); isStale {
+				x.stale = append(x.stale, fmt.Sprintf("%s:%d [%s] %s", c.File, c.Line, c.Label, se.msg))
+				t, ok = "0", false
+				return
+			}
+			panic(r)
+		}
+	}()
+	return env.expr(c.Expr).S, true
+}
+
 // finish checks the postconditions and the frame at a normal return.
 func (x *Exec) finish(st *State, vals []Term, n ast.Node) {
 	x.endReached = true
@@ -1624,7 +1678,7 @@ func (x *Exec) applyContract(call ast.Node, c *FuncContract, key string, names m
 			}
 			if !c.Pure {
 				na := x.ctx.fresh("alloc", "Int")
-				st.assume(app("<=", st.alloc.S, na))
+				st.pc = append(st.pc, app("<=", st.alloc.S, na)) // unguarded: the counter only grows, whether or not a guarded call ran
 				st.alloc = Term{S: na, Sort: "Int"}
 			}
 		}
